@@ -10,8 +10,9 @@
 
    A directory is the list of its children (name, expired?) in byte order of the
    names.  "expired" = TtlSec > 0 and Crtime + TtlSec is in the past at listing
-   time.  All callbacks handed to the listing functions return true (this is the
-   case for Filer.ListDirectoryEntries' own callback); limits are >= 0. *)
+   time.  In the first part all callbacks handed to the listing functions return true (this
+   is the case for Filer.ListDirectoryEntries' own callback); callbacks that stop early are
+   modelled by the *_s functions further down; limits are >= 0. *)
 From Coq Require Import List NArith Bool String Ascii Arith.
 Import ListNotations.
 Local Open Scope string_scope.
@@ -324,6 +325,232 @@ Fixpoint paginate_stream (fuel : nat) (s : store) (d : dirst) (start : string) (
       end
   end.
 
+(* ---------- callbacks that stop early (return false) ---------- *)
+(* The caller's callback (eachEntryFunc) = the list of its successive answers; it answers true
+   once the list is exhausted.  Below the Filer the callback chain is: doListDirectoryEntries'
+   closure (expired: delete, expiredCount++, return true), then doListPatternMatchedEntries'
+   closure (missed: missedCount++, return true), then eachEntryFunc.  [ms] = "missed";
+   the caller's callback sees exactly the entries with [passes ms e]. *)
+Definition passes (ms : string -> bool) (e : entry) : bool := elive e && negb (ms (ename e)).
+
+(* one invocation of the chain on entry e: (answers left, returned value) *)
+Definition cb_step (ms : string -> bool) (ans : list bool) (e : entry) : list bool * bool :=
+  if passes ms e then match ans with a :: ans' => (ans', a) | [] => ([], true) end else (ans, true).
+
+(* entries handed to the chain and answers left *)
+Record hres := { h_vis : list entry; h_ans : list bool }.
+
+(* leveldb loop body with `if !eachEntryFunc(entry) { break }` *)
+Fixpoint lvl_iter_s (ms : string -> bool) (l : dirst) (start : string) (incl : bool) (limit : nat) (p : string)
+         (ans : list bool) : hres :=
+  match l with
+  | [] => {| h_vis := []; h_ans := ans |}
+  | e :: l' =>
+      if negb (String.prefix p (ename e)) then {| h_vis := []; h_ans := ans |}
+      else if String.eqb (ename e) "" then lvl_iter_s ms l' start incl limit p ans
+      else if String.eqb (ename e) start && negb incl then lvl_iter_s ms l' start incl limit p ans
+      else match limit with
+           | O => {| h_vis := []; h_ans := ans |}
+           | S limit' =>
+               let st := cb_step ms ans e in
+               if snd st then
+                 let h := lvl_iter_s ms l' start incl limit' p (fst st) in
+                 {| h_vis := e :: h_vis h; h_ans := h_ans h |}
+               else {| h_vis := [e]; h_ans := fst st |}
+           end
+  end.
+
+(* reference store: `for _, e := range batch { lastFileName = e.Name(); if !eachEntryFunc(e) { break } }` *)
+Fixpoint hand (ms : string -> bool) (batch : list entry) (ans : list bool) : hres :=
+  match batch with
+  | [] => {| h_vis := []; h_ans := ans |}
+  | e :: b =>
+      let st := cb_step ms ans e in
+      if snd st then let h := hand ms b (fst st) in {| h_vis := e :: h_vis h; h_ans := h_ans h |}
+      else {| h_vis := [e]; h_ans := fst st |}
+  end.
+
+Record bres := { b_em : list entry; b_last : string; b_ans : list bool; b_stop : bool }.
+
+(* prefixFilterEntries' inner loop with `if !eachEntryFunc(entry) { return }` *)
+Fixpoint pf_batch_s (ms : string -> bool) (p : string) (need : nat) (batch : list entry) (last : string)
+         (ans : list bool) : bres :=
+  match batch with
+  | [] => {| b_em := []; b_last := last; b_ans := ans; b_stop := false |}
+  | e :: b' =>
+      if String.prefix p (ename e) then
+        let st := cb_step ms ans e in
+        if snd st then
+          match need with
+          | S (S n) => let r := pf_batch_s ms p (S n) b' (ename e) (fst st) in
+                       {| b_em := e :: b_em r; b_last := b_last r; b_ans := b_ans r; b_stop := b_stop r |}
+          | _ => {| b_em := [e]; b_last := ename e; b_ans := fst st; b_stop := false |}
+          end
+        else {| b_em := [e]; b_last := ename e; b_ans := fst st; b_stop := true |}
+      else pf_batch_s ms p need b' (ename e) ans
+  end.
+
+Fixpoint pf_loop_s (fuel : nat) (ms : string -> bool) (d : dirst) (limit : nat) (p last : string) (count : nat)
+         (batch acc : list entry) (ans : list bool) : option (list entry * string * list bool) :=
+  if Nat.ltb count limit && negb (is_nil batch) then
+    match fuel with
+    | O => None
+    | S f =>
+        let r := pf_batch_s ms p (limit - count) batch last ans in
+        if b_stop r then Some (acc ++ b_em r, b_last r, b_ans r)
+        else
+          let count' := count + length (b_em r) in
+          let d' := del_expired (b_em r) d in
+          if Nat.ltb count' limit then
+            pf_loop_s f ms d' limit p (b_last r) count' (mem_list d' (b_last r) false limit) (acc ++ b_em r) (b_ans r)
+          else Some (acc ++ b_em r, b_last r, b_ans r)
+    end
+  else Some (acc, last, ans).
+
+Definition wrapper_list_s (s : store) (ms : string -> bool) (d : dirst) (start : string) (incl : bool) (limit : nat)
+           (p : string) (ans : list bool) : option (wres * list bool) :=
+  match s with
+  | Lvl =>
+      let h := lvl_iter_s ms (seek (if negb (String.eqb start "") && String.leb p start then start else p) d)
+                          start incl limit p ans in
+      Some ({| w_vis := h_vis h; w_last := last_name (h_vis h) |}, h_ans h)
+  | Gen =>
+      if String.eqb p "" then
+        let h := hand ms (mem_list d start incl limit) ans in
+        Some ({| w_vis := h_vis h; w_last := last_name (h_vis h) |}, h_ans h)
+      else
+        let b1 := mem_list d start incl limit in
+        match pf_loop_s (S (length d)) ms d limit p (last_name b1) 0 b1 [] ans with
+        | Some (v, last, a) => Some ({| w_vis := v; w_last := last |}, a)
+        | None => None
+        end
+  end.
+
+Record sres := {
+  s_exp : nat;              (* expiredCount *)
+  s_miss : nat;             (* missedCount *)
+  s_last : string;          (* lastFileName *)
+  s_names : list string;    (* names handed to the caller's callback, in order *)
+  s_dir : dirst;
+  s_ans : list bool         (* answers left *)
+}.
+
+(* Filer.doListDirectoryEntries under the pattern closure *)
+Definition do_list_s (s : store) (ms : string -> bool) (d : dirst) (start : string) (incl : bool) (limit : nat)
+           (p : string) (ans : list bool) : option sres :=
+  match wrapper_list_s s ms d start incl limit p ans with
+  | None => None
+  | Some (w, a) =>
+      let v := w_vis w in
+      Some {| s_exp := length (filter eexp v);
+              s_miss := length (filter ms (map ename (filter elive v)));
+              s_last := w_last w;
+              s_names := filter (fun n => negb (ms n)) (map ename (filter elive v));
+              s_dir := del_expired v d; s_ans := a |}
+  end.
+
+(* Filer.doListValidEntries: the refill loop runs whatever the callback answered *)
+Fixpoint valid_loop_s (fuel : nat) (s : store) (ms : string -> bool) (p : string) (r : sres) : option sres :=
+  match s_exp r with
+  | O => Some r
+  | S _ =>
+      match fuel with
+      | O => None
+      | S f =>
+          match do_list_s s ms (s_dir r) (s_last r) false (s_exp r) p (s_ans r) with
+          | None => None
+          | Some r' =>
+              valid_loop_s f s ms p
+                {| s_exp := s_exp r'; s_miss := s_miss r + s_miss r'; s_last := keep_last (s_last r) (s_last r');
+                   s_names := s_names r ++ s_names r'; s_dir := s_dir r'; s_ans := s_ans r' |}
+          end
+      end
+  end.
+
+(* Filer.doListPatternMatchedEntries *)
+Definition pattern_list_s (s : store) (ms : string -> bool) (d : dirst) (start : string) (incl : bool) (limit : nat)
+           (p : string) (ans : list bool) : option sres :=
+  match do_list_s s ms d start incl limit p ans with
+  | None => None
+  | Some r => valid_loop_s (S (length d)) s ms p r
+  end.
+
+(* Filer.StreamListDirectoryEntries' refill loop: runs whatever the callback answered *)
+Fixpoint stream_loop_s (fuel : nat) (s : store) (ms : string -> bool) (p : string) (r : sres) : option sres :=
+  match s_miss r with
+  | O => Some r
+  | S _ =>
+      match fuel with
+      | O => None
+      | S f =>
+          match pattern_list_s s ms (s_dir r) (s_last r) false (s_miss r) p (s_ans r) with
+          | None => None
+          | Some r' =>
+              stream_loop_s f s ms p
+                {| s_exp := s_exp r'; s_miss := s_miss r'; s_last := keep_last (s_last r) (s_last r');
+                   s_names := s_names r ++ s_names r'; s_dir := s_dir r'; s_ans := s_ans r' |}
+          end
+      end
+  end.
+
+(* the closure of doListPatternMatchedEntries; without rest pattern and exclusion the caller's
+   callback is passed down unwrapped *)
+Definition ms_of (p rest excl : string) : string -> bool :=
+  if String.eqb rest "" && String.eqb excl "" then (fun _ => false) else missed p rest excl.
+
+Definition stream_list_s (s : store) (d : dirst) (start : string) (incl : bool) (limit : nat)
+           (prefix pat excl : string) (ans : list bool) : option sres :=
+  let p := eff_prefix prefix pat in
+  let ms := ms_of p (snd (split_pattern pat)) excl in
+  match pattern_list_s s ms d start incl limit p ans with
+  | None => None
+  | Some r => stream_loop_s (S (length d)) s ms p r
+  end.
+
+(* FilerServer.ListEntries (gRPC): overall limit [limit], page size [pag] = min(PaginationSize, limit);
+   the callback sends the entry, then `limit--; if limit == 0 { return false }; return true`
+   (limit is a signed int: after 0 it goes negative and the callback answers true again).
+   [sent] in pages; the loop `for limit > 0` ends when a call sent nothing or the limit is used up. *)
+Definition grpc_answers (limit : nat) : list bool := repeat true (limit - 1) ++ [false].
+
+Fixpoint grpc_list (fuel : nat) (s : store) (d : dirst) (start : string) (incl : bool) (limit pag : nat)
+         (prefix : string) : option (list (list string)) :=
+  match limit with
+  | O => Some []
+  | S _ =>
+      match fuel with
+      | O => None
+      | S f =>
+          match stream_list_s s d start incl pag prefix "" "" (grpc_answers limit) with
+          | None => None
+          | Some r =>
+              if is_nil (s_names r) then Some []
+              else
+                match grpc_list f s (s_dir r) (s_last r) false (limit - length (s_names r)) pag prefix with
+                | None => None
+                | Some pages => Some (s_names r :: pages)
+                end
+          end
+      end
+  end.
+
+(* index of the first call the callback answers false *)
+Fixpoint first_false (ans : list bool) : option nat :=
+  match ans with
+  | [] => None
+  | a :: t => if a then option_map S (first_false t) else Some O
+  end.
+
+(* a callback that returned false is not called again: at most (index of the refusal + 1) calls *)
+Definition stop_respected (ans : list bool) (names : list string) : bool :=
+  match first_false ans with
+  | Some k => Nat.leb (length names) (S k)
+  | None => true
+  end.
+
+(* finding 1: some answer of the callback is false *)
+Definition trig_stop (ans : list bool) : bool := negb (forallb (fun b => b) ans).
+
 (* ---------- specification ---------- *)
 Definition spec_match (prefix pat excl : string) (n : string) : bool :=
   String.prefix prefix n && (String.eqb pat "" || glob pat n) &&
@@ -355,3 +582,9 @@ Fixpoint plain_pattern (s : string) : bool :=
 (* finding 0 (documented restriction): prefix and namePattern are mutually exclusive *)
 Definition trig_both (prefix pat : string) : bool :=
   negb (String.eqb prefix "") && negb (String.eqb pat "").
+
+(* finding 0, narrowed: a pattern whose literal prefix is non-empty and extends the requested
+   prefix is served exactly (the literal prefix replaces a prefix it implies) *)
+Definition trig_narrow (prefix pat : string) : bool :=
+  trig_both prefix pat &&
+  negb (negb (String.eqb (fst (split_pattern pat)) "") && String.prefix prefix (fst (split_pattern pat))).
